@@ -585,7 +585,7 @@ Lemma run_unfold nm ws inst sdefs acp_arg ctor cg clif cli :
       | Ok st3 =>
         match finish_all_gen (ps_ws st3) cli with
         | Err e => Err e
-        | Ok kvs => if existsb (extra_kwargs (ps_ca st3)) (ps_ws st3) then Err (Raise "TypeError") else Ok (PMap kvs)
+        | Ok kvs => if existsb (extra_kwargs_gen (ps_ca st3)) (ps_ws st3) then Err (Raise "TypeError") else Ok (PMap kvs)
         end
       end
     end
@@ -1292,3 +1292,204 @@ Proof.
     { destruct cg; [rewrite (Hcg eq_refl); exact Es | rewrite andb_false_r; exact Es]. }
     rewrite (layers_partial _ _ _ _ _ _ _ _ _ _ _ _ _ _ H Hm Hl Hn Es'). apply pt_eqb_refl.
 Qed.
+
+(* ---------- the type tag never reaches the constructor (holds from the `_type_` fix on) ---------- *)
+(* finite side condition on the regenerated facts: every key DataclassWrapper.set_default discards is popped from the
+   constructor arguments in _instantiate_dataclasses *)
+Lemma ctor_strips_type_key : CTOR_STRIPS_TYPE_KEY_GEN = true.
+Proof. reflexivity. Qed.
+Lemma strip_covers_discard : forallb (fun k => str_in k CTOR_STRIP_GEN) DISCARD_GEN = true.
+Proof. vm_compute. reflexivity. Qed.
+
+Definition ckeys (w : wtree) : option (list string) := match w with WClass fs => Some (keys fs) | WLeaf _ _ _ _ => None end.
+
+Definition allknown (w : wtree) (m : list (string * ptree)) : Prop :=
+  match w with WClass fs => names_known fs m = true | WLeaf _ _ _ _ => True end.
+
+Lemma allknown_ckeys w w' m : ckeys w = ckeys w' -> allknown w m -> allknown w' m.
+Proof.
+  destruct w as [? ? ? ?|fs], w' as [? ? ? ?|fs']; cbn [ckeys allknown]; try discriminate; try tauto.
+  intros E. injection E as E. unfold names_known. now rewrite E.
+Qed.
+
+Definition same_fields (ws ws' : list (string * wtree)) : Prop :=
+  Forall2 (fun a b => fst a = fst b /\ ckeys (snd a) = ckeys (snd b)) ws ws'.
+
+Lemma same_fields_In_r ws ws' d w' :
+  same_fields ws ws' -> In (d, w') ws' -> exists w, In (d, w) ws /\ ckeys w = ckeys w'.
+Proof.
+  induction 1 as [|[d0 w0] [d1 w1] l l' [Hk Hc] _ IH]; intros Hin; [destruct Hin|].
+  cbn [fst snd] in Hk, Hc. destruct Hin as [E | Hin].
+  - injection E as <- <-. subst d0. exists w0. split; [now left | exact Hc].
+  - destruct (IH Hin) as [w [Hw Hcw]]. exists w. split; [now right | exact Hcw].
+Qed.
+
+Lemma sdt_ckeys w t w' : set_default_tree_gen w t = Ok w' -> ckeys w = ckeys w'.
+Proof.
+  destruct w as [o d i c|fs]; intros H.
+  - unfold set_default_tree_gen in H. cbn in H. injection H as <-. reflexivity.
+  - destruct t as [| v | m].
+    + unfold set_default_tree_gen in H. cbn in H. injection H as <-. reflexivity.
+    + unfold set_default_tree_gen in H. cbn in H. discriminate.
+    + rewrite sdt_class in H. destruct (sdt_go m fs) as [fs'|] eqn:Eg; [|discriminate].
+      destruct (names_known fs m); [|discriminate]. injection H as <-. cbn [ckeys]. now rewrite (sdt_go_keys _ _ _ Eg).
+Qed.
+
+Lemma sdt_allknown w m w' : set_default_tree_gen w (PMap m) = Ok w' -> allknown w m.
+Proof.
+  destruct w as [o d i c|fs]; intros H; cbn [allknown]; [exact I|].
+  rewrite sdt_class in H. destruct (sdt_go m fs); [|discriminate]. now destruct (names_known fs m).
+Qed.
+
+(* what the loop of set_defaults hands over to constructor_arguments: sections every wrapper at that destination accepted *)
+Lemma sdw_sections ws : forall kw ws' s,
+  sd_wrappers_gen ws kw = Ok (ws', s) ->
+  (forall d sec, In (d, sec) s -> exists m, sec = PMap m /\ lookup d kw = Some (PMap m))
+  /\ (forall d w m, In (d, w) ws -> lookup d kw = Some (PMap m) -> allknown w m)
+  /\ same_fields ws ws'.
+Proof.
+  induction ws as [|[d0 w0] r IH]; intros kw ws' s H.
+  - cbn in H. injection H as <- <-. repeat split; [intros ? ? [] | intros ? ? ? [] | constructor].
+  - rewrite sdw_cons in H. destruct (lookup d0 kw) as [sec|] eqn:Ek.
+    + destruct sec as [| v | m']; [discriminate | destruct v; discriminate |].
+      destruct (set_default_tree_gen w0 (PMap m')) as [w0'|] eqn:Es; [|discriminate].
+      destruct (sd_wrappers_gen r kw) as [[r' s']|] eqn:Er; [|discriminate]. injection H as <- <-.
+      destruct (IH _ _ _ Er) as [A [B C]]. repeat split.
+      * intros d sec [E | Hin]; [injection E as <- <-; now exists m' | now apply A].
+      * intros d w m [E | Hin] Hl; [|now apply (B d w m)].
+        injection E as <- <-. rewrite Ek in Hl. injection Hl as <-. apply (sdt_allknown _ _ _ Es).
+      * constructor; [split; [reflexivity | apply (sdt_ckeys _ _ _ Es)] | exact C].
+    + destruct (sd_wrappers_gen r kw) as [[r' s']|] eqn:Er; [|discriminate]. injection H as <- <-.
+      destruct (IH _ _ _ Er) as [A [B C]]. repeat split.
+      * exact A.
+      * intros d w m [E | Hin] Hl; [|now apply (B d w m)]. injection E as <- <-. rewrite Ek in Hl. discriminate.
+      * constructor; [split; reflexivity | exact C].
+Qed.
+
+Lemma du_go_keys y x : keys (du_go y x) = keys x.
+Proof. induction x as [|[k t] r IH]; [reflexivity|]. cbn [du_go keys map fst]. f_equal. exact IH. Qed.
+
+Lemma names_known_app fs a b : names_known fs (a ++ b) = names_known fs a && names_known fs b.
+Proof. unfold names_known, keys. now rewrite map_app, forallb_app. Qed.
+
+Lemma names_known_filter fs (p : string * ptree -> bool) l : names_known fs l = true -> names_known fs (filter p l) = true.
+Proof.
+  unfold names_known, keys. induction l as [|x r IH]; [reflexivity|]. cbn [map forallb filter]. intros H.
+  apply andb_true_iff in H as [H1 H2]. destruct (p x); [cbn [map forallb]; now rewrite H1, IH | now apply IH].
+Qed.
+
+Lemma allknown_union w mo mn :
+  allknown w mo -> allknown w mn ->
+  forall m, dict_union_gen (PMap mo) (PMap mn) = PMap m -> allknown w m.
+Proof.
+  destruct w as [? ? ? ?|fs]; cbn [allknown]; [tauto|]. intros Ho Hn m E. rewrite du_maps in E. injection E as <-.
+  rewrite names_known_app. apply andb_true_iff. split.
+  - unfold names_known in *. now rewrite du_go_keys.
+  - now apply names_known_filter.
+Qed.
+
+(* constructor_arguments only ever holds, per destination, keys its dataclass knows or set_default discards *)
+Definition ca_ok (ws : list (string * wtree)) (ca : ptree) : Prop :=
+  is_map ca = true /\ forall d w m, In (d, w) ws -> subtree [d] ca = Some (PMap m) -> allknown w m.
+
+Lemma sdk_ca_ok st kw st' :
+  set_defaults_kwargs_gen st kw = Ok st' -> ca_ok (ps_ws st) (ps_ca st) -> ca_ok (ps_ws st') (ps_ca st').
+Proof.
+  intros H [Hmap Hok]. rewrite sdk_unfold in H. destruct kw as [| v | kwm]; try (injection H as <-; now split).
+  destruct (sd_wrappers_gen (ps_ws st) kwm) as [[ws' s]|] eqn:E; [|discriminate]. injection H as <-. cbn [ps_ws ps_ca].
+  destruct (sdw_sections _ _ _ _ E) as [A [B C]].
+  destruct (ps_ca st) as [| v | cam]; try discriminate. rewrite du_maps. split; [reflexivity|].
+  intros d w' m Hin Hs.
+  destruct (same_fields_In_r _ _ _ _ C Hin) as [w [Hw Hc]]. apply (allknown_ckeys w w' m Hc).
+  cbn [subtree] in Hs. rewrite lookup_app, lookup_du_go, lookup_filter_notin in Hs.
+  destruct (lookup d cam) as [old|] eqn:Eo.
+  - destruct (lookup d s) as [new|] eqn:En.
+    + destruct (A d new (lookup_In _ _ _ En)) as [mn [-> Hk]].
+      assert (Kn := B d w mn Hw Hk).
+      destruct old as [| vo | mo].
+      * rewrite du_merge_leaf_map in Hs by reflexivity. discriminate.
+      * rewrite du_merge_leaf_map in Hs by reflexivity. discriminate.
+      * rewrite du_merge_maps in Hs.
+        assert (Hs' : dict_union_gen (PMap mo) (PMap mn) = PMap m) by congruence.
+        apply (allknown_union w mo mn); [apply (Hok d w mo Hw); cbn [subtree]; now rewrite Eo | exact Kn | exact Hs'].
+    + injection Hs as ->. apply (Hok d w m Hw). cbn [subtree]. now rewrite Eo.
+  - apply lookup_none_keys in Eo. rewrite Eo in Hs.
+    destruct (lookup d s) as [new|] eqn:En; [|discriminate]. injection Hs as ->.
+    destruct (A d _ (lookup_In _ _ _ En)) as [mn [E' Hk]]. injection E' as <-. apply (B d w m Hw Hk).
+Qed.
+
+Lemma fold_kwargs_ca_ok l : forall st st',
+  fold_res set_defaults_kwargs_gen st l = Ok st' -> ca_ok (ps_ws st) (ps_ca st) -> ca_ok (ps_ws st') (ps_ca st').
+Proof.
+  induction l as [|kw r IH]; intros st st' H Hc; cbn [fold_res] in H.
+  - now injection H as <-.
+  - destruct (set_defaults_kwargs_gen st kw) as [st1|] eqn:E; [|discriminate].
+    apply (IH _ _ H). apply (sdk_ca_ok _ _ _ E Hc).
+Qed.
+
+Lemma fold_files_ca_ok nm l : forall st st',
+  fold_res (set_defaults_file_gen nm) st l = Ok st' -> ca_ok (ps_ws st) (ps_ca st) -> ca_ok (ps_ws st') (ps_ca st').
+Proof.
+  induction l as [|f r IH]; intros st st' H Hc; cbn [fold_res] in H.
+  - now injection H as <-.
+  - destruct (set_defaults_file_gen nm st f) as [st1|] eqn:E; [|discriminate].
+    apply (IH _ _ H). rewrite sdf_unfold in E. apply (sdk_ca_ok _ _ _ E Hc).
+Qed.
+
+Lemma ca_ok_no_extra ws ca : ca_ok ws ca -> existsb (extra_kwargs_gen ca) ws = false.
+Proof.
+  intros [_ Hok]. apply not_true_is_false. intros H. apply existsb_exists in H as [[d w] [Hin Hx]].
+  unfold extra_kwargs_gen, extra_kwargs in Hx. cbn [fst snd] in Hx.
+  destruct (subtree [d] ca) as [[| v | m]|] eqn:Es; try discriminate. destruct w as [? ? ? ?|fs]; [discriminate|].
+  specialize (Hok d _ m Hin Es). cbn [allknown] in Hok. unfold names_known in Hok.
+  apply negb_true_iff in Hx. apply not_true_iff_false in Hx. apply Hx.
+  rewrite forallb_forall in Hok |- *. intros k Hk. specialize (Hok k Hk).
+  apply orb_true_iff in Hok as [Hf | Hd]; [now rewrite Hf|].
+  assert (S := strip_covers_discard). rewrite forallb_forall in S. apply str_in_In in Hd. rewrite (S k Hd). apply orb_true_r.
+Qed.
+
+(* a `_type_` key in a section, at any depth, in any document, is ignored: the constructor never receives a keyword
+   that is not a field, i.e. the parse is the pipeline without the unexpected-keyword failure *)
+Theorem type_key_ignored nm ws inst sdefs acp_arg ctor cg clif cli :
+  run_gen nm ws inst sdefs acp_arg ctor cg clif cli =
+  match fold_res set_defaults_kwargs_gen (mk_pstate (ws_init ws inst) (PMap [])) sdefs with
+  | Err e => Err e
+  | Ok st1 =>
+    match fold_res (set_defaults_file_gen nm) st1 ctor with
+    | Err e => Err e
+    | Ok st2 =>
+      match fold_res (set_defaults_file_gen nm) st2 (applied_clif (acp_of acp_arg ctor) cg ctor clif) with
+      | Err e => Err e
+      | Ok st3 => match finish_all_gen (ps_ws st3) cli with Err e => Err e | Ok kvs => Ok (PMap kvs) end
+      end
+    end
+  end.
+Proof.
+  rewrite run_unfold.
+  destruct (fold_res set_defaults_kwargs_gen _ sdefs) as [st1|e] eqn:E1; [|reflexivity].
+  destruct (fold_res (set_defaults_file_gen nm) st1 ctor) as [st2|e] eqn:E2; [|reflexivity].
+  destruct (fold_res (set_defaults_file_gen nm) st2 _) as [st3|e] eqn:E3; [|reflexivity].
+  destruct (finish_all_gen (ps_ws st3) cli) as [kvs|e]; [|reflexivity].
+  rewrite ca_ok_no_extra; [reflexivity|].
+  apply (fold_files_ca_ok _ _ _ _ E3), (fold_files_ca_ok _ _ _ _ E2), (fold_kwargs_ca_ok _ _ _ E1).
+  split; [reflexivity|]. intros d w m _ Hs. cbn in Hs. discriminate.
+Qed.
+
+(* and set_default treats a section with the tag exactly like the section without it (at whatever depth the section is) *)
+Lemma names_known_tag fs m v : names_known fs (("_type_", v) :: m) = names_known fs m.
+Proof.
+  unfold names_known. cbn [keys map fst forallb].
+  replace (str_in "_type_" DISCARD_GEN) with true by reflexivity. now rewrite orb_true_r.
+Qed.
+
+Lemma sdt_go_tag fs m v : str_in "_type_" (keys fs) = false -> sdt_go (("_type_", v) :: m) fs = sdt_go m fs.
+Proof.
+  induction fs as [|[k c] r IH]; intros H; [reflexivity|].
+  cbn [keys map fst str_in existsb] in H. apply orb_false_iff in H as [Hk Hr].
+  cbn [sdt_go lookup]. rewrite String.eqb_sym in Hk. rewrite Hk, (IH Hr). reflexivity.
+Qed.
+
+Theorem type_key_in_section_ignored fs m v :
+  str_in "_type_" (keys fs) = false ->
+  set_default_tree_gen (WClass fs) (PMap (("_type_", v) :: m)) = set_default_tree_gen (WClass fs) (PMap m).
+Proof. intros H. now rewrite !sdt_class, names_known_tag, (sdt_go_tag fs m v H). Qed.
